@@ -47,6 +47,9 @@ type Options struct {
 	// "socket" (SocketServer.acceptConnection via VerifServe), "packet" (PacketServer.StartupPacket
 	// with the in-memory listener injected), "dns" (DnsServer's loop over the real ServerDnsListener).
 	RealLoop string
+	// DnsRaw: do not run the socketace layer on accepted DNS-tunnel connections; the check drives
+	// the tunnel connection objects directly (C07, C13).
+	DnsRaw bool
 	// OnDial is called for every physical carrier connection with the connection objects whose
 	// read plans govern the client's and the server's reads respectively.
 	OnDial func(clientReads, serverReads *netsim.MemConn)
